@@ -600,12 +600,10 @@ func (in *zvfVInst) exec(op, arg string) (res zvfVRes) {
 			if err != nil {
 				return zvfVRes{}
 			}
-			d := sha256.Sum256(req)
-			want := append([]byte{29}, req...)
-			if sz > 1<<20 {
-				want = append([]byte{29}, d[:]...)
-			}
-			if bytes.Equal(resp, want) {
+			// relayed = the request reached the underlying agent byte-identical and its answer (whatever it was: the
+			// digest echo, or a faulted reply) reached the caller byte-identical
+			fr := in.px.Frames()
+			if len(fr) == 1 && bytes.Equal(fr[0].Req, req) && bytes.Equal(fr[0].Reply, resp) {
 				return zvfVRes{Ok: true, By: "relayed"}
 			}
 			return zvfVRes{Ok: true, By: "altered"}
